@@ -103,7 +103,10 @@ def sites_of(body):
                         break
                 if not msg:
                     msg = _macro_message(body, t["l"])
-                out.append({"kind": "panic:%s" % mac, "detail": msg[:90], "line": t["l"], "msg": msg})
+                # the default message of assert!/debug_assert! is the asserted expression as written: not part of the key
+                # (flipping `a < b` into `b > a`, or renaming a local, does not make it another site)
+                det = "" if msg.startswith("assertion failed:") else msg[:90]
+                out.append({"kind": "panic:%s" % mac, "detail": det, "line": t["l"], "msg": msg})
             elif is_panicky_std(c):
                 short = c
                 g = t.get("g", "")
